@@ -398,19 +398,60 @@ fn folded_keep_only(doc: &[u8], got: &str, want: &str) -> bool {
     has_folded_keep && got != want && squash(got) == squash(want)
 }
 
-/// The document has a block scalar with an explicit indentation indicator as an item of a compact
-/// nested sequence (`- - |2`): the loader takes the indicator relative to the line's first dash
-/// instead of the inner sequence's (loader-side defect, C14 domain), so such a value does not
-/// survive any re-emission.
+/// Loader-defect shape K6: on a line that opens a compact NESTED sequence (`- - …`), a block scalar
+/// with an explicit indentation indicator, either as the item itself (`- - |2`) or as the value of
+/// the item's first key (`- - k: >3-`).  The loader takes the indicator relative to the line's first
+/// dash (+2) instead of the indentation of the node that owns the scalar (YAML 1.2 [185]/[186]), so
+/// the value it reads differs from the document's and no re-emission of it loads back (C14 domain).
 fn nested_seq_indicator(doc: &[u8]) -> bool {
     String::from_utf8_lossy(doc).split('\n').any(|line| {
-        let l = line.trim_start();
-        if !(l.starts_with("- - ") || l.starts_with("- -\t")) {
+        let mut l = line.trim_start();
+        if !l.starts_with("- - ") {
             return false;
         }
-        let h = l.trim_start_matches(|c| c == '-' || c == ' ');
-        let h = h.split(' ').next().unwrap_or("");
-        (h.starts_with('|') || h.starts_with('>')) && h.bytes().any(|b| b.is_ascii_digit())
+        while let Some(r) = l.strip_prefix("- ") {
+            l = r.trim_start();
+        }
+        // drop a trailing comment, then look at the last token of the line
+        let l = match l.find(" #") {
+            Some(p) => &l[..p],
+            None => l,
+        };
+        let l = l.trim_end();
+        let tok = l.rsplit(' ').next().unwrap_or("");
+        let is_header = (tok.starts_with('|') || tok.starts_with('>'))
+            && tok[1..].bytes().all(|b| b == b'+' || b == b'-' || b.is_ascii_digit())
+            && tok.bytes().any(|b| b.is_ascii_digit());
+        // the header is the whole item, or follows `key:` (possibly with an anchor/tag before it)
+        is_header && (l.len() == tok.len() || l[..l.len() - tok.len()].contains(": ") || l[..l.len() - tok.len()].trim_end().ends_with(':'))
+    })
+}
+
+/// Loader-defect shape K7: the first key of a compact sequence-item mapping has its value deferred
+/// to the following lines (`- key:`) and that value is a multi-line PLAIN scalar; the loader keeps
+/// only its first line and reads the continuation line as a further key (`- d:\n   u\n   v` loads as
+/// {"d":"u"}, and with a following key as {"d":"u","v":"k1"}) — C14 domain.
+fn seq_first_key_multiline_plain(doc: &[u8]) -> bool {
+    let text = String::from_utf8_lossy(doc);
+    let lines: Vec<&str> = text.split('\n').collect();
+    let plain_cont = |l: &str, min_indent: usize| -> bool {
+        let t = l.trim_start();
+        let ind = l.len() - t.len();
+        !t.is_empty()
+            && ind > min_indent
+            && !t.contains(": ")
+            && !t.ends_with(':')
+            && !t.starts_with(|c: char| "-?|>&*![{\"'#%@`".contains(c))
+    };
+    (0..lines.len().saturating_sub(2)).any(|i| {
+        let l = lines[i];
+        let t = l.trim_start();
+        let dash_col = l.len() - t.len();
+        let body = match t.find(" #") {
+            Some(p) => t[..p].trim_end(),
+            None => t.trim_end(),
+        };
+        t.starts_with("- ") && body.ends_with(':') && plain_cont(lines[i + 1], dash_col) && plain_cont(lines[i + 2], dash_col)
     })
 }
 
@@ -437,9 +478,12 @@ fn cli_loop(doc: &[u8], prog: &str, indent: usize) -> String {
         return format!("LOOP-FAIL yaml-run rc={rc1} err={}", hex_bytes(&y_err[..y_err.len().min(80)]));
     }
     let y_txt = String::from_utf8_lossy(&y_out).into_owned();
-    if let Err(name) = alias_order_ok(&y_txt) {
+    // a result that is a bare string is printed raw (K1): `*x` there is text, not an alias
+    let raw_string_result = String::from_utf8_lossy(&j_out).split('\n').any(|l| l.starts_with('"'));
+    if let (Err(name), false) = (alias_order_ok(&y_txt), raw_string_result) {
         let route = if prog == "." { "identity" } else if is_pure_path(prog) { "nav" } else { "write" };
-        return format!("ALIAS-FAIL {} route={route} name={name} out={}", alias_class(doc, &name), hex_bytes(&y_out[..y_out.len().min(300)]));
+        let cls = if seq_first_key_multiline_plain(doc) { "loader-K7" } else { alias_class(doc, &name) };
+        return format!("ALIAS-FAIL {cls} route={route} name={name} out={}", hex_bytes(&y_out[..y_out.len().min(300)]));
     }
     let (rc3, r_out, r_err) = run_cli(&["yq", "-o", "json", "-I", "0", "."], &y_out);
     let want = String::from_utf8_lossy(&j_out).trim_end().to_string();
@@ -460,7 +504,9 @@ fn cli_loop(doc: &[u8], prog: &str, indent: usize) -> String {
         let tag = if folded_keep_only(doc, &got, &want) {
             "folded-keep-extra-break"
         } else if nested_seq_indicator(doc) {
-            "nested-seq-indicator"
+            "loader-K6"
+        } else if seq_first_key_multiline_plain(doc) {
+            "loader-K7"
         } else {
             tag
         };
@@ -646,7 +692,8 @@ pub fn exec(a: &[&str]) -> String {
                 Err(e) => return format!("LOOP-FAIL stream-error {e}"),
             };
             if let Err(name) = alias_order_ok(&out) {
-                return format!("ALIAS-FAIL {} route=identity name={name} out={}", alias_class(&doc, &name), hex_bytes(out.as_bytes()));
+                let cls = if seq_first_key_multiline_plain(&doc) { "loader-K7" } else { alias_class(&doc, &name) };
+                return format!("ALIAS-FAIL {cls} route=identity name={name} out={}", hex_bytes(out.as_bytes()));
             }
             match load_json(out.as_bytes()) {
                 Ok(got) if got == want => "LOOP-OK".into(),
@@ -655,7 +702,9 @@ pub fn exec(a: &[&str]) -> String {
                     if folded_keep_only(&doc, &got, &want) {
                         "folded-keep-extra-break"
                     } else if nested_seq_indicator(&doc) {
-                        "nested-seq-indicator"
+                        "loader-K6"
+                    } else if seq_first_key_multiline_plain(&doc) {
+                        "loader-K7"
                     } else {
                         "value"
                     },
@@ -1438,7 +1487,9 @@ pub fn gen(tier: Tier, r: &mut Rng, emit: &mut dyn FnMut(String)) {
     while docs.len() < n_docs && tries < n_docs * 4 {
         tries += 1;
         let d = if tries % 3 == 0 { gen_block_scalar_doc(r) } else { gen_doc(r) };
-        if load_json(d.as_bytes()).is_ok() {
+        // documents of the loader-defect shape K6 are not generated (one corpus line each keeps
+        // the shape under its known finding)
+        if load_json(d.as_bytes()).is_ok() && !nested_seq_indicator(d.as_bytes()) && !seq_first_key_multiline_plain(d.as_bytes()) {
             docs.push(d);
         }
     }
